@@ -588,6 +588,63 @@ def _nat_dump_crashpoints(h):
 
 
 
+def nat_dump_failures(h):
+    """bounded: a RUN THAT FAILS (an exception in a source or a step, not a kill) while dump_to_path / dump_to_zip is writing: whenever
+    a parseable descriptor can be found afterwards (datapackage.json in the directory / in a readable archive), every file it lists
+    is there with the recorded size and hash"""
+    import hashlib, zipfile
+    from dataflows import Flow, dump_to_path, dump_to_zip
+    for kind in ('path', 'zip'):
+        for fmt in ('csv', 'json'):
+            for fail_res, fail_row in ((0, 0), (0, 2), (1, 0), (1, 150), (2, 1), (2, 3)):
+                d = tempfile.mkdtemp(prefix='c19f_')
+                try:
+                    def src(k, n):
+                        def gen():
+                            for i in range(n):
+                                if k == fail_res and i == fail_row:
+                                    raise RuntimeError('source %d failed at row %d' % (k, i))
+                                yield {'id': i, 't': 'r%d_%d' % (k, i)}
+                            if k == fail_res and fail_row >= n:
+                                raise RuntimeError('source %d failed at its end' % k)
+                        return gen()
+                    sizes = [3, 200, 3]
+                    dumper = dump_to_path(os.path.join(d, 'out'), format=fmt) if kind == 'path' else dump_to_zip(os.path.join(d, 'out.zip'), format=fmt)
+                    # (the first 100 rows of every source are read when the flow is built: a failure among them stops the run before
+                    # the dumper starts -- fine, then there is nothing to look at)
+                    got = h.run(lambda: Flow(*[src(k, n) for k, n in enumerate(sizes)], dumper).process())
+                    desc, read = None, None
+                    if kind == 'path' and os.path.exists(os.path.join(d, 'out', 'datapackage.json')):
+                        try:
+                            desc = json.load(open(os.path.join(d, 'out', 'datapackage.json')))
+                            read = lambda p: open(os.path.join(d, 'out', p), 'rb').read() if os.path.exists(os.path.join(d, 'out', p)) else None
+                        except Exception:
+                            desc = None
+                    if kind == 'zip' and os.path.exists(os.path.join(d, 'out.zip')):
+                        try:
+                            zf = zipfile.ZipFile(os.path.join(d, 'out.zip'))
+                            if 'datapackage.json' in zf.namelist():
+                                desc = json.loads(zf.read('datapackage.json'))
+                                read = lambda p: zf.read(p) if p in zf.namelist() else None
+                        except Exception:
+                            desc = None
+                    ok, note = got[0] == 'exc', 'no descriptor' if got[0] == 'exc' else 'the run did not fail'
+                    if desc is not None:
+                        note = 'descriptor parseable'
+                        for r in desc['resources']:
+                            raw = read(r['path'])
+                            if raw is None:
+                                ok, note = False, 'descriptor lists missing file %s' % r['path']
+                                break
+                            if len(raw) != r.get('bytes') or hashlib.md5(raw).hexdigest() != r.get('hash'):
+                                ok, note = False, 'file %s does not have the recorded size/hash' % r['path']
+                                break
+                    h.check(ok, 'dataflows/processors/dumpers/dumper_base.py::DumperBase.process_resources', (kind, fmt, 'source', fail_res, 'fails at row', fail_row),
+                            'the run fails; descriptor present => data files complete', note)
+                finally:
+                    shutil.rmtree(d, ignore_errors=True)
+
+
 def nat_observers_behind_a_pair(h):
     """bounded: a flow with observers (dump, stream, checkpoint, finalizer) whose datastream is handed to another flow as a
     (descriptor, iterators) pair -- the documented way of running steps on the output of another flow: when the outer flow has
